@@ -188,3 +188,89 @@ pub fn reset() {
     *lock.lock().unwrap() = Registry::default();
     cvar.notify_all();
 }
+
+
+//------------ Kill points (C23) ---------------------------------------------
+//
+// A kill point sits immediately before a file-system operation of the store.
+// Every arrival at any kill point is counted. When the count reaches the
+// value of the environment variable `VERIF_KILL_AT`, the process prints the
+// labels of all kill points reached so far to stderr and aborts. For kill
+// points that sit before a write, `VERIF_KILL_CUT=n` makes the process write
+// only the first `n` bytes of the data before it aborts.
+
+static KILL_LOG: Mutex<Vec<String>> = Mutex::new(Vec::new());
+
+fn kill_env(name: &str) -> Option<u64> {
+    std::env::var(name).ok().and_then(|s| s.parse().ok())
+}
+
+/// Registers the arrival and returns whether the process is to die here.
+fn kill_arrive(id: &str, path: &std::path::Path) -> bool {
+    let mut log = KILL_LOG.lock().unwrap();
+    log.push(format!("{}|{}", id, path.display()));
+    kill_env("VERIF_KILL_AT") == Some(log.len() as u64)
+}
+
+fn kill_now() -> ! {
+    use std::io::Write;
+    let log = KILL_LOG.lock().unwrap();
+    let mut err = std::io::stderr();
+    for item in log.iter() {
+        let _ = writeln!(err, "VERIF_KILL_POINT {item}");
+    }
+    let _ = err.flush();
+    std::process::abort()
+}
+
+/// The labels (`id|path`) of all kill points reached so far.
+pub fn kill_log() -> Vec<String> {
+    KILL_LOG.lock().unwrap().clone()
+}
+
+/// A kill point before an operation that is not a write.
+pub fn kill_point(id: &str, path: &std::path::Path) {
+    if kill_arrive(id, path) {
+        kill_now()
+    }
+}
+
+/// A kill point before `data` is written to `writer`.
+///
+/// If the process is to die here and `VERIF_KILL_CUT` is set, the first
+/// that many bytes of what `data` produces are written and flushed first.
+pub fn kill_point_write<W: std::io::Write>(
+    id: &str, path: &std::path::Path, writer: &mut W,
+    data: impl FnOnce(&mut Vec<u8>) -> Result<(), std::io::Error>,
+) {
+    if kill_arrive(id, path) {
+        if let Some(cut) = kill_env("VERIF_KILL_CUT") {
+            let mut buf = Vec::new();
+            let _ = data(&mut buf);
+            let cut = std::cmp::min(cut as usize, buf.len());
+            let _ = writer.write_all(&buf[..cut]);
+            let _ = writer.flush();
+        }
+        kill_now()
+    }
+}
+
+/// The two kill points of `std::fs::write(path, data)`: before the file is
+/// created or truncated, and between that and the write (emulated: the hook
+/// truncates the file itself, writes `VERIF_KILL_CUT` bytes, and aborts).
+pub fn kill_point_fs_write(id: &str, path: &std::path::Path, data: &[u8]) {
+    if kill_arrive(&format!("{id}.create"), path) {
+        kill_now()
+    }
+    if kill_arrive(&format!("{id}.write"), path) {
+        use std::io::Write;
+        if let Ok(mut file) = std::fs::File::create(path) {
+            let cut = std::cmp::min(
+                kill_env("VERIF_KILL_CUT").unwrap_or(0) as usize, data.len()
+            );
+            let _ = file.write_all(&data[..cut]);
+            let _ = file.flush();
+        }
+        kill_now()
+    }
+}
